@@ -10,6 +10,7 @@ import (
 	"sync/atomic"
 
 	"github.com/pdfcpu/pdfcpu/pkg/api"
+	"github.com/pdfcpu/pdfcpu/pkg/font"
 	"verif/ops"
 	"verif/simfs"
 )
@@ -84,6 +85,28 @@ func init() {
 	api.DisableConfigDir()
 }
 
+var processFontDir string
+
+// useProcessFonts points pdfcpu's user font directory at a process-wide directory (outside every
+// sandbox, so its reads are not simulated events) that holds Roboto-Regular.
+func useProcessFonts() error {
+	if processFontDir == "" {
+		d := filepath.Join(ScratchBase(), "procfonts")
+		if err := os.MkdirAll(d, 0755); err != nil {
+			return err
+		}
+		if _, err := font.InstallTrueTypeFont(d, filepath.Join(ops.TestData, "fonts", "Roboto-Regular.ttf")); err != nil {
+			return fmt.Errorf("process fonts: %w", err)
+		}
+		processFontDir = d
+	}
+	if font.UserFontDir != processFontDir {
+		font.UserFontDir = processFontDir
+		return font.ReloadUserFonts()
+	}
+	return nil
+}
+
 // OldPopulated is the content of pre-created files in the output directory of outdir ops.
 var OldPopulated = []byte("OLD pre-existing file in output directory\n")
 
@@ -114,6 +137,11 @@ func Run(cfg Config, opt Options) (*Result, error) {
 	mode := os.FileMode(cfg.OutMode)
 	if mode == 0 {
 		mode = 0604
+	}
+	if o.NeedsUserFont {
+		if err := useProcessFonts(); err != nil {
+			return nil, err
+		}
 	}
 	env, err := ops.Setup(o, cfg.Rel, root, mode)
 	if err != nil {
